@@ -39,6 +39,44 @@ def run_set_impl(case):
     return [int(t.trial_id) for t in best], [t.hyperparameters.values["x"] for t in best]
 
 
+def reported_case(rng):
+    """the score clause: trials whose score the oracle derives itself from reports (several executions per step, several steps);
+    returns a message or None"""
+    import fractions, tempfile, shutil, warnings
+    import keras_tuner as kt
+    from keras_tuner.engine import hyperparameters as hpm
+    from keras_tuner.tuners import randomsearch
+    warnings.filterwarnings("ignore")
+    direction = rng.choice(["min", "max"]); mx = direction == "max"
+    hps = hpm.HyperParameters(); hps.Int("x", 0, 10 ** 6)
+    d = tempfile.mkdtemp(prefix="ktv04_")
+    try:
+        o = randomsearch.RandomSearchOracle(objective=kt.Objective("score", direction), max_trials=20, hyperparameters=hps, seed=rng.randint(1, 10 ** 6))
+        o._set_project_dir(d, "p"); o._display.verbose = 0
+        want = {}
+        for i in range(rng.randint(2, 6)):
+            t = o.create_trial("w0")
+            steps = {}
+            for _ in range(rng.randint(1, 6)):
+                st = rng.choice([0, 0, 1, 2]); v = float(60 * rng.randint(-4, 4))
+                o.update_trial(t.trial_id, {"score": v}, step=st); steps.setdefault(st, []).append(fractions.Fraction(v))
+            means = [sum(vs) / len(vs) for vs in steps.values()]
+            want[t.trial_id] = max(means) if mx else min(means)
+            t.status = "COMPLETED"; o.end_trial(t)
+        for i, w in want.items():
+            got = o.trials[i].score
+            if got is None or float(w) != float(got):
+                return "%s: trial %s reported %s; its score is %r, the best per-step mean is %s" % (direction, i, "several executions per step", got, w)
+        n = rng.randint(1, len(want) + 1)
+        ids = [t.trial_id for t in o.get_best_trials(n)]
+        exp = [i for i, _ in sorted(want.items(), key=lambda kv: (-kv[1] if mx else kv[1], int(kv[0])))][:n]
+        if ids != exp:
+            return "%s: get_best_trials(%d) = %r, by best per-step mean (ties in creation order) %r" % (direction, n, ids, exp)
+        return None
+    finally:
+        shutil.rmtree(d, ignore_errors=True)
+
+
 def spec_set(case, ids):
     ts = case["trials"]; mx = case["direction"] == "max"
     if len(ids) != min(case["n"], len(ts)) or len(set(ids)) != len(ids):
@@ -133,6 +171,13 @@ def run(ctx):
             if not msg:
                 failures.append(Failure("diff", "C04/model-vs-impl", "Best.v and Oracle.get_best_trials disagree (tie order or selection)",
                                         {"correspondence": "Best.v vs Oracle.get_best_trials", "case": cases[i], "impl": outs[i]}))
+    # the score clause on trials scored by the oracle from its own reports
+    nrep = ctx.n(60, 600); stats["reported_sets"] = nrep
+    for j in range(nrep):
+        msg = reported_case(rng)
+        if msg:
+            failures.append(Failure("violation", "C04/score-from-reports", msg, {"note": "regenerated from the run seed"}))
+            break
     # symmetry monitor on the four real oracles
     npairs = ctx.n(24, 300)
     for j in range(npairs):
